@@ -10,14 +10,17 @@ import (
 	"os"
 	"sort"
 	"strings"
+	"sync"
+	"sync/atomic"
 )
 
 // ---- one PRNG (splitmix64) from which every random choice is derived ----
 type rng struct{ s uint64 }
 
 func (r *rng) next() uint64 {
-	r.s += 0x9e3779b97f4a7c15
-	z := r.s
+	// atomic: some scenarios draw from several goroutines (which goroutine gets which value is then the scheduler's
+	// choice, but the stream of values is the seed's)
+	z := atomic.AddUint64(&r.s, 0x9e3779b97f4a7c15)
 	z = (z ^ (z >> 30)) * 0xbf58476d1ce4e5b9
 	z = (z ^ (z >> 27)) * 0x94d049bb133111eb
 	return z ^ (z >> 31)
@@ -50,6 +53,7 @@ func (r *rng) fork() *rng { return &rng{r.next()} }
 
 // ---- output: T<TAB>op<TAB>impl-output | V<TAB>signature<TAB>json | S<TAB>key<TAB>value ----
 type outw struct {
+	mu       sync.Mutex // scenarios report from several goroutines, and the hang watchdog reads the progress
 	w        *bufio.Writer
 	nT, nV   int
 	stats    map[string]int
@@ -68,33 +72,58 @@ func newOut(path string) *outw {
 
 // T records one operation and what the implementation answered; the Lean driver must answer the same.
 func (o *outw) T(op, out string) {
+	o.mu.Lock()
+	defer o.mu.Unlock()
 	o.nT++
 	o.w.WriteString("T\t" + op + "\t" + out + "\n")
 }
 
 // V records an impl-side monitor hit: the property itself failed on the real code.
 func (o *outw) V(sig string, detail any) {
+	o.mu.Lock()
+	defer o.mu.Unlock()
 	o.nV++
 	js, _ := json.Marshal(detail)
 	o.w.WriteString("V\t" + sig + "\t" + string(js) + "\n")
 }
 
 // N records a note line for the evidence (not compared).
-func (o *outw) N(s string) { o.w.WriteString("N\t" + s + "\n") }
+func (o *outw) N(s string) {
+	o.mu.Lock()
+	defer o.mu.Unlock()
+	o.w.WriteString("N\t" + s + "\n")
+}
 
-func (o *outw) stat(k string, d int) { o.stats[k] += d }
+// progress is what the hang watchdog watches: rows, hits and cases reported so far
+func (o *outw) progress() int {
+	o.mu.Lock()
+	defer o.mu.Unlock()
+	return o.nT + o.nV + o.stats["cases"]
+}
+
+func (o *outw) stat(k string, d int) {
+	o.mu.Lock()
+	defer o.mu.Unlock()
+	o.stats[k] += d
+}
 func (o *outw) case_(key string, nontrivial bool) {
+	o.mu.Lock()
+	defer o.mu.Unlock()
 	o.stats["cases"]++
 	if nontrivial {
 		o.distinct[key] = struct{}{}
 	}
 }
 func (o *outw) sample(s string) {
+	o.mu.Lock()
+	defer o.mu.Unlock()
 	if len(o.samples) < 5 {
 		o.samples = append(o.samples, s)
 	}
 }
 func (o *outw) close() {
+	o.mu.Lock()
+	defer o.mu.Unlock()
 	o.stats["trace_lines"] = o.nT
 	o.stats["monitor_hits"] = o.nV
 	o.stats["distinct_nontrivial"] = len(o.distinct)
